@@ -244,14 +244,15 @@ Fixpoint p4_ok (ts1 dst : N) (e : @hopd key) (r : list (@hopd key)) : Prop :=
 Lemma run_p4 dst a b v0 ts0 ts1 H : forall r e ch i,
   skipn ch H = map d_hop (e :: r) -> (a < ch)%nat -> length H = (a + b)%nat ->
   p4_ok ts1 dst e r -> (i =? 0) = false -> i = h_in (d_hop e) ->
-  delivers mac t now (S (length r)) (d_ia e) i (ppkt dst 1 ch a b v0 ts0 (d_beta e) ts1 H) dst (fun _ => True).
+  delivers mac t now (S (length r)) (d_ia e) i (ppkt dst 1 ch a b v0 ts0 (d_beta e) ts1 H) dst
+           (fun pk' => pk' = ppkt dst 1 (a + b - 1) a b v0 ts0 (d_beta (last r e)) ts1 H).
 Proof.
   induction r as [|e' r IH]; intros e ch i Hsk Hgt Hlen Hok E0 Ei; cbn [p4_ok] in Hok.
   - destruct Hok as (Ha & (Ht & Ha1 & Ha2 & ak & Hfa & Hk) & Hd).
     pose proof (skipn_nth _ _ _ _ Hsk) as Eh.
     assert (Hl : S ch = (a + b)%nat).
     { assert (L : length (skipn ch H) = 1%nat) by (rewrite Hsk; reflexivity). rewrite skipn_length in L. lia. }
-    subst dst. eapply ref_sim_deliver; [exact Hfa| |exact I].
+    subst dst. eapply ref_sim_deliver; [exact Hfa| |cbn [last]; replace (a + b - 1)%nat with ch by lia; reflexivity].
     rewrite Hk. apply (ref_p5 (d_ia e) (d_key e) i ch a b v0 ts0 (d_beta e) ts1 H (d_hop e)); auto.
     rewrite E0, Ei, N.eqb_refl. reflexivity.
   - destruct Hok as (Ha & (Ht & Ha1 & Ha2 & ak & Hfa & Hk) & Hc & (ty & l & Hif & Hsl & Hgp & Hnz) & Hok').
@@ -262,7 +263,7 @@ Proof.
     eapply ref_sim_fwd; [exact Hfa| |exact Hsl|exact Hgp|].
     + rewrite Hk. apply (ref_p4 (d_ia e) (d_key e) i dst ch a b v0 ts0 (d_beta e) ts1 H (d_hop e) ty); auto.
       rewrite E0, Ei, N.eqb_refl. reflexivity.
-    + rewrite <- Hc. apply IH; auto; try lia.
+    + rewrite <- Hc. rewrite (last_shift r e' e). apply IH; auto; try lia.
       rewrite skipn_S_tl', Hsk. reflexivity.
 Qed.
 
@@ -292,7 +293,8 @@ Lemma run_peer dst a b ts0 ts1 H dq r1 : forall ds0 dp ch v0 i first,
   end ->
   (if first then i = 0 else (i =? 0) = false /\ i = h_eg (d_hop (hd dp ds0))) ->
   delivers mac t now (length ds0 + 2 + length r1) (d_ia (hd dp ds0)) i
-           (ppkt dst 0 ch a b v0 ts0 (d_beta dq) ts1 H) dst (fun _ => True).
+           (ppkt dst 0 ch a b v0 ts0 (d_beta dq) ts1 H) dst
+           (fun pk' => pk' = ppkt dst 1 (a + b - 1) a b (d_beta dp) ts0 (d_beta (last r1 dq)) ts1 H).
 Proof.
   induction ds0 as [|d r IH]; intros dp ch v0 i first Hsk Hch Hb Hlen Hok Aq Hq Hr1 Hi; cbn [p1_ok] in Hok.
   - (* at the peering hop of the first segment *)
@@ -312,14 +314,15 @@ Proof.
       assert (Hingq : (negb (h_in (d_hop dq) =? 0) && negb (h_in (d_hop dq) =? h_in (d_hop dq))) = false)
         by (rewrite N.eqb_refl; apply andb_false_r).
       destruct r1 as [|e r'].
-      * subst dst b. cbn [length]. eapply ref_sim_deliver; [exact Hfq| |exact I].
+      * subst dst b. cbn [length]. eapply ref_sim_deliver; [exact Hfq| |cbn [last length]; rewrite Hbeta; replace (a + 1 - 1)%nat with a by lia; reflexivity].
         rewrite Hkq. apply (ref_p3d (d_ia dq) (d_key dq) _ a v0 ts0 (d_beta dq) ts1 H (d_hop dq)); auto; try lia.
       * destruct Hr1 as (He & (ty2 & l2 & Hif2 & Hsl2 & Hgp2 & Hnz2) & Hok4).
         cbn [length]. replace (0 + 2 + S (length r'))%nat with (S (S (S (length r')))) by lia.
         eapply ref_sim_fwd; [exact Hfq| |exact Hsl2|exact Hgp2|].
         -- rewrite Hkq. apply (ref_p3 (d_ia dq) (d_key dq) _ dst a b v0 ts0 (d_beta dq) ts1 H (d_hop dq) ty2); auto; try lia.
            cbn [length] in Hb. lia.
-        -- rewrite <- He. apply (run_p4 dst a b v0 ts0 ts1 H r' e (S a) _); auto; try lia.
+        -- rewrite <- He. rewrite Hbeta. rewrite (last_shift r' e dq).
+           apply (run_p4 dst a b v0 ts0 ts1 H r' e (S a) _); auto; try lia.
            rewrite skipn_S_tl', Hsk1. reflexivity.
   - (* a plain hop of the first segment *)
     destruct Hok as (Hbeta & Ad & (Ht & Ha1 & Ha2 & ak & Hfa & Hk) & (ty & l & Hif & Hsl & Hgp & Hnz) & Hok').
@@ -432,7 +435,10 @@ Theorem peering_delivers (L0 : list (@hopd key)) (dq : @hopd key) (r1 : list (@h
   end ->
   delivers mac t now (length L0 + 1 + length r1) (d_ia (hd dq L0)) 0
            (ppkt dst 0 0 (length L0) (S (length r1)) s0 ts0 s1 ts1 (hops_of L0 ++ hops_of (dq :: r1)))
-           dst (fun _ => True).
+           dst
+           (fun pk' => pk' = ppkt dst 1 (length L0 + length r1) (length L0) (S (length r1))
+                                  (last (betas_of L0) 0) ts0 (last (betas_of (dq :: r1)) 0) ts1
+                                  (hops_of L0 ++ hops_of (dq :: r1))).
 Proof.
   intros FA0 HB0 HT0 FA1 HB1 Hq HT1.
   destruct (p1_split ts0 dq L0 s0 true FA0 HB0 HT0) as (ds0 & dp & EL & P1).
@@ -464,8 +470,17 @@ Proof.
     rewrite <- He in HB1t. exact HB1t. }
   assert (Hlen : length (hops_of (ds0 ++ [dp]) ++ hops_of (dq :: r1)) = (length ds0 + 1 + S (length r1))%nat).
   { unfold hops_of. rewrite app_length, !map_length, app_length. cbn [length]. lia. }
-  exact (run_peer dst (length ds0 + 1) (S (length r1)) ts0 ts1 _ dq r1 ds0 dp 0%nat s0 0 true
-                  eq_refl ltac:(lia) eq_refl Hlen P1 Aq Hq Hr1 eq_refl).
+  destruct (run_peer dst (length ds0 + 1) (S (length r1)) ts0 ts1 _ dq r1 ds0 dp 0%nat s0 0 true
+                  eq_refl ltac:(lia) eq_refl Hlen P1 Aq Hq Hr1 eq_refl) as (tr & pk' & R & HQ).
+  exists tr, pk'. split; [exact R|]. rewrite HQ.
+  assert (E1 : last (betas_of (ds0 ++ [dp])) 0 = d_beta dp).
+  { unfold betas_of. rewrite map_app. cbn [map]. apply last_last. }
+  assert (E2 : last (betas_of (dq :: r1)) 0 = d_beta (last r1 dq)).
+  { unfold betas_of. change (map d_beta (dq :: r1)) with (d_beta dq :: map d_beta r1).
+    rewrite (last_shift (map d_beta r1) (d_beta dq) 0). clear. revert dq. induction r1 as [|x r IH]; intros dq; [reflexivity|].
+    cbn [map]. rewrite (last_shift (map d_beta r) (d_beta x) (d_beta dq)), (last_shift r x dq). apply IH. }
+  rewrite E1, E2.
+  replace (length ds0 + 1 + S (length r1) - 1)%nat with (length ds0 + 1 + length r1)%nat by lia. reflexivity.
 Qed.
 
 (** ** uses of beaconed segments through a peer entry are such descriptions *)
